@@ -1080,7 +1080,7 @@ func TestBulkRebuild(t *testing.T) {
 		obs := state{vals: map[string]string{}}
 		idStyle := rapid.IntRange(0, 2).Draw(rt, "idStyle")
 		if idStyle == 1 {
-			n = rapid.IntRange(257, 1100).Draw(rt, "manyvalues")
+			n = rapid.IntRange(257, 520).Draw(rt, "manyvalues") // (the small test database limits a transaction to about 1700 entries)
 		}
 		for i := 0; i < n; i++ {
 			id := fmt.Sprintf("v%03d", i)
